@@ -8,7 +8,7 @@ ALL = ["C%02d" % i for i in range(1, 21)]
 CHECKS = {
  "C01": ("exploration", "metamorphic multi-process replay (replicas serving API reads / with upstream and late database failures) + race detector",
          "Independent fresh daemon processes (different hash seeds, GOMAXPROCS, upstream delays, time zones; one under the race detector) replay forged chains built to contain exact ties (equal staking stakes incl. the top stake above the cap, equal oversubscribed bank requests, >100-entry blocks); canonical dumps of all ledger tables must be byte-identical. Sampling of schedules/hash seeds, not enumeration: held-on-K-executions.",
-         "Trusted: the lab's forge/fake factomd/dumper (self-checked: forged chains are parsed and Merkle-verified by the daemon's own factom client). Compressed era heights; averaging window 12. Every third replica answers read-only API requests between blocks; every third has a fake factomd failing every 29th entry request once and a database refusing the last statement of every fifth block once.",
+         "Trusted: the lab's forge/fake factomd/dumper (self-checked: forged chains are parsed and Merkle-verified by the daemon's own factom client). Compressed era heights; averaging window 12. Every third replica answers read-only API requests between blocks; every third has a fake factomd failing every 29th entry request once and a database refusing the last statement of every fifth block once. One replica in six has one read of recorded rates fail in the PIP-10 era (by design that ends the daemon process); a fresh process finishes the chain on the same database.",
          "DESIGN.md §3 C01"),
  "C02": ("fault_enumeration", "crash-point enumeration: SIGKILL at SQL statement boundaries (small page cache, the daemon's own journal mode) + failing statements / upstream requests + fresh-process verifier",
          "The real daemon is SIGKILLed before/after the k-th database statement (BEGIN, COMMIT and pool reads included) of special blocks (every payout/one-time-adjustment/bank/snapshot kind) in rollback-journal and WAL mode; a fresh process checks integrity, recorded height, ledger == reference state of that height, contiguous height rows, and resumes. Quick = stratified by call site; thorough = every statement index of the special blocks.",
